@@ -11,7 +11,7 @@ func verifC14Root() string     { return "/r" }
 
 func verifC02NativeJobOrder(src string) {}
 
-func verifC10NativeFindProject(gs, ws, gr, wr int, want string) {}
+func verifC10NativeFindProject(gs, ws, gr, wr, outerFirst int, want string) {}
 func verifC02NativeFormat()                                     {}
 
 // verifPrintedLines: the lines PrettyPrint writes for the diagnostics (no
@@ -49,6 +49,7 @@ func verifC02NativeSharedDefect() {}
 func verifC02NativeRepeat(wf string) {}
 func verifC10NativeSameActionPath(wf string) {}
 func verifC02NativeNested() {}
+func verifC16NativeCalleeBroken(caller, calleePath, callee string) []*Error { return nil }
 
 // verifPrintedWithSource: what PrettyPrint writes for one diagnostic with its source (colours off).
 func verifPrintedWithSource(e *Error, src []byte) []string {
